@@ -77,6 +77,9 @@ func (is *InternalStatser) Gauge(name string, value float64, tags gostatsd.Tags)
 		Source: is.hostname,
 		Rate:   1,
 		Type:   gostatsd.GAUGE,
+		// A gauge is replaced by a newer one only; without a time of its own the first value reported would stay for
+		// as long as the series lives in the aggregator (for ever with expiry disabled).
+		Timestamp: gostatsd.NanoNow(),
 	}
 	is.dispatchMetric(g)
 }
